@@ -5,7 +5,7 @@ from ..env import np, puan, pnd
 
 ID = "C13"
 RULE = ("Mode M: EVERY integer array of the stated shapes/alphabets: 1-D (axis=None) of length 1..5 over {-3..3}; 2-D 2x2, 2x3, 3x2 over "
-        "{-2..2} on both axes and flattened (axis=None); batched 3-D 2x2x2 over {-1,0,1,2} (axis=0); plus a fixed family of 120 'deep' arrays with up to 62 distinct priority levels (weights up to ~2^61, "
+        "{-2..2} on both axes and flattened (axis=None); batched 3-D 2x2x2 over {-1,0,1,2} (axis=0); plus a fixed family of 150 'deep' arrays (incl. many tied levels: weights like 3^k, 5^k above 2^53) with up to 62 distinct priority levels (weights up to ~2^61, "
         "several orders and sign patterns, ties, zeros, tall diagonal matrices) - x the seven methods. oracle: for "
         "'shadow' the level of a column is (row of its last non-zero entry, magnitude); w=0 <=> all-zero, sign kept, equal levels => equal "
         "|w|, lower level => smaller |w|, and dominance |w_j| > sum of |w_i| over all strictly lower levels (exact Python integers); "
@@ -44,6 +44,14 @@ def deep_arrays():
                 w = [x if signs == "+" else -x if signs == "-" else (x if i % 2 else -x) for i, x in enumerate(v)]
                 out.append(("1d", np.array(w, dtype=np.int64)))
         out.append(("1d", np.array(base + base[: n // 2] + [0, 0], dtype=np.int64)))           # ties and zeros
+    for k, mult in ((30, 2), (34, 2), (36, 2), (38, 2), (39, 2), (20, 4), (24, 4), (26, 4), (22, 3), (27, 6)):
+        # k levels, each shared by `mult` entries (mixed signs): weights grow like (mult+1)^k, i.e. are NOT powers of two and exceed 2^53
+        v = []
+        for lev in range(1, k + 1):
+            v += [lev if j % 2 == 0 else -lev for j in range(mult)]
+        out.append(("1d", np.array(v, dtype=np.int64)))
+        out.append(("1d", np.array(v[::-1], dtype=np.int64)))
+        out.append(("1d", np.array(v[1::2] + v[0::2] + [k + 1], dtype=np.int64)))
     for r in (8, 16, 31, 40, 61):
         X = np.zeros((r, r), dtype=np.int64)
         for i in range(r):
